@@ -779,6 +779,10 @@ pub fn c16_strategy(transports: BoxedStrategy<Transport>) -> BoxedStrategy<ConvC
         3 => (0u8..3, ws_strategy()).prop_map(|(t, ws)| (2u8, t, ws)), // ws before colon
         4 => proptest::sample::select(bad_cl_values()).prop_map(|v| (3u8, 0u8, v.to_string())), // bad CL value
         2 => proptest::sample::select(vec![" ", "\t", "  ", " \t "]).prop_map(|v| (4u8, 2u8, v.to_string())), // a line of whitespace only (empty fold line)
+        // a bad Content-Length value whose offending part stands far into a very long line (beyond
+        // 1, 4, 8, 16, 64 KiB): a line counts as a whole, however long it is
+        1 => (proptest::sample::select(vec![100usize, 1020, 4090, 8185, 9000, 16400, 70000]), proptest::sample::select(vec![" ", "\t"]), proptest::sample::select(vec!["x", ", 40", " 6", "+", ",", "5 5"]))
+            .prop_map(|(n, ws, tail)| (3u8, 0u8, format!("5{}{}", ws.repeat(n), tail))),
     ];
     (1usize..=3, any::<proptest::sample::Index>(), kind, headers_strategy(3), transports, any::<bool>(), proptest::collection::vec(small_respond(), 3))
         .prop_map(|(n, at, (kind, target, text), headers, transport, fold_first, fins)| {
